@@ -18,12 +18,21 @@ package main
 //	offerall <i>            every leaf j != i offered with the path of i      -> ok <number accepted>
 //	vidx <i> <k>            leaf[i] with the path of i but LeafIndex := k     -> true | false
 //	settree <m>             new tree; SetTree(m, copy of GetTree())           -> ok <root> <allpaths digest> | err
+//	export                  e_k := GetTree() (the slice itself, NOT copied), with the root, leaves and paths of
+//	                        the tree at this moment recorded                  -> ok <k>
+//	recompute <n> <tag>     ComputeTree of n fresh leaves on the SAME MerkleTree object  -> as compute
+//	loadcompute <k> <n> <tag>  t2 := new tree; t2.SetTree(n_k, e_k) (the slice itself); t2.ComputeTree(n fresh
+//	                        leaves)                                           -> as compute (of t2)
+//	checkexport <k>         e_k loaded into a fresh object: root and all paths as recorded at export time, every
+//	                        path verifies for the leaves of that time         -> ok <root> <allpaths digest> | err
 //
 // Oracle (independent of the code under test; own SHA3, levels-based): the tree array is the concatenation of
 // the levels (next level = pairs hashed, last node paired with itself on odd levels; a single leaf gets the
 // root H(l,l)); the path of i is the sibling (or the node itself when it has none) on every level below the
 // root; a path verifies for a hash iff folding it by the bits of the index gives the root; an offered hash
 // is accepted iff it equals the leaf's hash; SetTree(m) succeeds iff m = n and then reproduces root and paths.
+// An exported array is a value: whatever is computed later on the object it came from, or on an object it was
+// loaded into, it still loads to the root and paths it had when exported (ComputeTree allocates its own array).
 
 import (
 	"fmt"
@@ -143,6 +152,17 @@ func c19PathsDigest(n int, get func(i int) *util.MTPath) string {
 	return c19Digest(sb.String())
 }
 
+// c19Export: what GetTree() handed out, and what the tree was at that moment
+type c19Export struct {
+	arr    []string // the very slice returned by GetTree
+	n      int
+	leaves []string
+	lv     [][]string
+	root   string
+	digest string // fingerprint of the array at export time
+	paths  string // fingerprint of all paths at export time
+}
+
 func runC19(ops []string) CaseResult {
 	res := CaseResult{}
 	tags := map[string]bool{}
@@ -150,6 +170,8 @@ func runC19(ops []string) CaseResult {
 	var mt *util.MerkleTree
 	var lv [][]string
 	root := ""
+	var exports []*c19Export
+	firstN := 0
 	fail := func(i int, f string, a ...interface{}) {
 		if len(res.Fails) < 20 {
 			res.Fails = append(res.Fails, fmt.Sprintf("op %d (%s): ", i, ops[i])+fmt.Sprintf(f, a...))
@@ -177,6 +199,36 @@ func runC19(ops []string) CaseResult {
 			fail(i, "path of index %d (n=%d) does not fold to the root", want, len(leaves))
 		}
 	}
+	// computeOn: ComputeTree(ls) on the given object, compared with the levels oracle
+	computeOn := func(i int, target *util.MerkleTree, ls []string) (string, [][]string, string) {
+		hs := make([]util.Hashable, len(ls))
+		for k, l := range ls {
+			hs[k] = c19Hashable(l)
+		}
+		target.ComputeTree(hs)
+		lvs := c19Levels(ls)
+		rt := lvs[len(lvs)-1][0]
+		var flat []string
+		for _, l := range lvs {
+			flat = append(flat, l...)
+		}
+		t := target.GetTree()
+		if !c19EqStrs(t, flat) {
+			fail(i, "tree array (n=%d, %d entries) is not the concatenation of the levels (%d entries)", len(ls), len(t), len(flat))
+		}
+		if target.GetRoot() != rt {
+			fail(i, "root %s, want %s (n=%d)", target.GetRoot(), rt, len(ls))
+		}
+		if len(ls)&1 == 1 {
+			tags["odd-leaves"] = true
+		}
+		for _, l := range lvs {
+			if len(l) > 1 && len(l)&1 == 1 {
+				tags["odd-inner-level"] = true
+			}
+		}
+		return fmt.Sprintf("ok %d %s %s", len(t), target.GetRoot(), c19Digest(strings.Join(t, ","))), lvs, rt
+	}
 	for i, op := range ops {
 		f := strings.Fields(op)
 		// malformed cases (shrinker): an op before its tree exists, or an index outside the leaves
@@ -188,6 +240,14 @@ func runC19(ops []string) CaseResult {
 			bad = mt != nil || len(f) != 3 || atoi(f[1]) < 0 || atoi(f[1]) >= len(leaves) || atoi(f[2]) < 0 || atoi(f[2]) >= len(leaves)
 		case "compute":
 			bad = len(leaves) == 0 || mt != nil
+		case "export":
+			bad = mt == nil
+		case "recompute":
+			bad = mt == nil || len(f) != 3 || atoi(f[1]) < 1
+		case "checkexport":
+			bad = mt == nil || len(f) != 2 || atoi(f[1]) < 0 || atoi(f[1]) >= len(exports)
+		case "loadcompute":
+			bad = mt == nil || len(f) != 4 || atoi(f[1]) < 0 || atoi(f[1]) >= len(exports) || atoi(f[2]) < 1
 		default:
 			bad = mt == nil
 			for k := 1; k < len(f) && k < 3 && !bad; k++ {
@@ -215,34 +275,69 @@ func runC19(ops []string) CaseResult {
 				tags["dup"] = true
 				return "ok"
 			case "compute":
-				hs := make([]util.Hashable, len(leaves))
-				for k, l := range leaves {
-					hs[k] = c19Hashable(l)
-				}
 				mt = &util.MerkleTree{}
-				mt.ComputeTree(hs)
-				lv = c19Levels(leaves)
-				root = lv[len(lv)-1][0]
-				var flat []string
-				for _, l := range lv {
-					flat = append(flat, l...)
+				firstN = len(leaves)
+				var o string
+				o, lv, root = computeOn(i, mt, leaves)
+				return o
+			case "recompute":
+				n := atoi(f[1])
+				leaves = make([]string, n)
+				for k := range leaves {
+					leaves[k] = c19Leaf(f[2], k)
 				}
+				tags["recompute-same-object"] = true
+				var o string
+				o, lv, root = computeOn(i, mt, leaves)
+				return o
+			case "export":
 				t := mt.GetTree()
-				if !c19EqStrs(t, flat) {
-					fail(i, "tree array (n=%d, %d entries) is not the concatenation of the levels (%d entries)", len(leaves), len(t), len(flat))
+				exports = append(exports, &c19Export{arr: t, n: len(leaves), leaves: append([]string(nil), leaves...), lv: lv, root: root,
+					digest: c19Digest(strings.Join(t, ",")), paths: c19PathsDigest(len(leaves), mt.GetPathByIndex)})
+				return fmt.Sprintf("ok %d", len(exports)-1)
+			case "loadcompute":
+				e := exports[atoi(f[1])]
+				t2 := &util.MerkleTree{}
+				if err := t2.SetTree(e.n, e.arr); err != nil {
+					fail(i, "SetTree(%d) rejected export %s: %v", e.n, f[1], err)
+					return "err"
 				}
-				if mt.GetRoot() != root {
-					fail(i, "root %s, want %s (n=%d)", mt.GetRoot(), root, len(leaves))
+				ls := make([]string, atoi(f[2]))
+				for k := range ls {
+					ls[k] = c19Leaf(f[3], k)
 				}
-				if len(leaves)&1 == 1 {
-					tags["odd-leaves"] = true
+				tags["compute-after-load"] = true
+				o, _, _ := computeOn(i, t2, ls)
+				return o
+			case "checkexport":
+				e := exports[atoi(f[1])]
+				if d := c19Digest(strings.Join(e.arr, ",")); d != e.digest {
+					fail(i, "the array exported by GetTree() (export %s, %d leaves) has changed since it was exported: a later ComputeTree wrote into it", f[1], e.n)
 				}
-				for _, l := range lv {
-					if len(l) > 1 && len(l)&1 == 1 {
-						tags["odd-inner-level"] = true
+				t2 := &util.MerkleTree{}
+				if err := t2.SetTree(e.n, e.arr); err != nil {
+					fail(i, "SetTree(%d) rejected export %s: %v", e.n, f[1], err)
+					return "err"
+				}
+				if t2.GetRoot() != e.root {
+					fail(i, "export %s (%d leaves) loads to root %.8s, but the tree had root %.8s when it was exported", f[1], e.n, t2.GetRoot(), e.root)
+				}
+				for k := 0; k < e.n; k++ {
+					p := t2.GetPathByIndex(k)
+					if sp := c19SpecPath(e.lv, k); !c19EqStrs(p.Nodes, sp) || p.LeafIndex != k {
+						fail(i, "export %s loaded back: path of index %d differs from the path at export time", f[1], k)
+						break
+					}
+					if !t2.VerifyPath(c19Hashable(e.leaves[k]), p) {
+						fail(i, "export %s loaded back: own path of index %d rejected", f[1], k)
+						break
 					}
 				}
-				return fmt.Sprintf("ok %d %s %s", len(t), mt.GetRoot(), c19Digest(strings.Join(t, ",")))
+				pd := c19PathsDigest(e.n, t2.GetPathByIndex)
+				if pd != e.paths {
+					fail(i, "export %s loaded back: the paths differ from those at export time", f[1])
+				}
+				return "ok " + t2.GetRoot() + " " + pd
 			case "tree":
 				return "ok " + strings.Join(mt.GetTree(), ",")
 			case "pathidx", "pathleaf":
@@ -374,8 +469,8 @@ func runC19(ops []string) CaseResult {
 		}
 		res.Outs = append(res.Outs, out)
 	}
-	res.Nontrivial = len(leaves) >= 2 && mt != nil
-	if len(leaves) == 1 {
+	res.Nontrivial = firstN >= 2 && mt != nil
+	if firstN == 1 {
 		tags["single-leaf"] = true
 	}
 	for t := range tags {
@@ -462,6 +557,25 @@ func c19Case(r *rand.Rand, n int, tag string, dups int, tier string) []string {
 			ops = append(ops, fmt.Sprintf("settree %d", m))
 		}
 	}
+	// exports are values: later ComputeTree calls on the same object (equal, smaller, larger leaf counts) and on an
+	// object the export was loaded into must leave an earlier export loading to its original root and paths
+	sizes := func() int {
+		c := []int{n, n, n - 1, (n + 1) / 2, 1, 1 + r.Intn(n), n + 1 + r.Intn(3)}
+		m := c[r.Intn(len(c))]
+		if m < 1 {
+			m = 1
+		}
+		return m
+	}
+	n2 := sizes()
+	if n2 > n {
+		n2 = n // the first recomputation never grows: the array of the first export could be reused
+	}
+	ops = append(ops, "export", fmt.Sprintf("recompute %d %sb", n2, tag), "checkexport 0", "allpaths",
+		fmt.Sprintf("pathidx %d", n2-1), "export",
+		fmt.Sprintf("loadcompute 0 %d %sc", sizes(), tag), "checkexport 0", "checkexport 1",
+		fmt.Sprintf("loadcompute 1 %d %sd", n2, tag), "checkexport 1",
+		fmt.Sprintf("recompute %d %se", sizes(), tag), "checkexport 1", "checkexport 0", "allpaths")
 	return ops
 }
 
